@@ -1,7 +1,7 @@
 //! C12: streams re-establish themselves after the client's QUIC connection is cut (hook
 //! `Client::__verif_close_connection`, cargo feature verif-hooks) while the server stays up.
 //!
-//! case c12 <seed> <i> kind=<publisher|subscriber|requestor|replier|replier_exhaust> attempts=<n> outages=<k> step_ms=<s>
+//! case c12 <seed> <i> kind=<publisher|subscriber|requestor|replier|replier_exhaust|subscriber_exhaust|publisher_exhaust|requestor_exhaust> attempts=<n> outages=<k> step_ms=<s>
 //! outage <j> before=<ok|fail:..> after=<ok|fail:..> ms=<t>
 //! result <ok|too_many_retries|hung|err:..>
 use crate::net::*;
@@ -39,7 +39,9 @@ async fn with_deadline<T>(ms: u64, f: impl std::future::Future<Output = T>) -> O
 
 pub async fn run_case(addr: SocketAddr, certs: &Certs, seed: u64, i: u64, kind: &str, out: &mut String) {
     let mut r = Rng::new(seed.wrapping_mul(7723).wrapping_add(i) ^ 0x12);
-    let attempts = r.range(1, 3) as u32;
+    // *_exhaust (pub/sub, requestor): no retry budget at all, the first outage must be reported
+    let zero_budget = matches!(kind, "subscriber_exhaust" | "publisher_exhaust" | "requestor_exhaust");
+    let attempts = if zero_budget { 0 } else { r.range(1, 3) as u32 };
     let outages = attempts as u64 + r.range(1, 2);
     // exhaustion scenario: the first retry must come after the squatter has bound the topic
     let step_ms = if kind == "replier_exhaust" { 300 } else { *r.pick(&[0u64, 10, 40]) };
@@ -192,6 +194,88 @@ pub async fn run_case(addr: SocketAddr, certs: &Certs, seed: u64, i: u64, kind: 
                 }
                 Ok(())
             }
+            "subscriber_exhaust" => {
+                // a task that does nothing but await the next item: it is woken only by the stream itself
+                let mut sub = a.subscriber(&topic).with_decoder(StringCodec).open().await.map_err(|e| err_text(&e))?;
+                let task = tokio::spawn(async move { sub.next().await });
+                tokio::time::sleep(Duration::from_millis(80)).await;
+                let t0 = Instant::now();
+                a.__verif_close_connection().await;
+                let txt = match with_deadline(4000, task).await {
+                    None => "hung".to_string(),
+                    Some(Ok(Some(Err(e)))) => err_text(&e),
+                    Some(Ok(Some(Ok(m)))) => format!("item:{}", m),
+                    Some(Ok(None)) => "end".to_string(),
+                    Some(Err(_)) => "task_panicked".to_string(),
+                };
+                let _ = writeln!(out, "outage 0 op=next delivered={} ms={}", txt, t0.elapsed().as_millis());
+                if txt == "too_many_retries" { Ok(()) } else { Err(format!("expected too_many_retries, got {}", txt)) }
+            }
+            "publisher_exhaust" => {
+                let mut publ = a.publisher(&topic).with_encoder(StringCodec).open().await.map_err(|e| err_text(&e))?;
+                publ.send("before".to_string()).await.map_err(|e| err_text(&e))?;
+                tokio::time::sleep(Duration::from_millis(60)).await;
+                a.__verif_close_connection().await;
+                tokio::time::sleep(Duration::from_millis(30)).await;
+                let t0 = Instant::now();
+                // nothing but the publisher wakes this task
+                let task = tokio::spawn(async move {
+                    for k in 0..6 {
+                        if let Err(e) = publ.send(format!("after{}", k)).await {
+                            return Err(e);
+                        }
+                        tokio::task::yield_now().await;
+                    }
+                    Ok(())
+                });
+                let txt = match with_deadline(4000, task).await {
+                    None => "hung".to_string(),
+                    Some(Ok(Err(e))) => err_text(&e),
+                    Some(Ok(Ok(()))) => "all_sent".to_string(),
+                    Some(Err(_)) => "task_panicked".to_string(),
+                };
+                let _ = writeln!(out, "outage 0 op=send delivered={} ms={}", txt, t0.elapsed().as_millis());
+                if txt == "too_many_retries" { Ok(()) } else { Err(format!("expected too_many_retries, got {}", txt)) }
+            }
+            "requestor_exhaust" => {
+                let mut replier = b
+                    .replier(&topic)
+                    .with_request_decoder(StringCodec)
+                    .with_reply_encoder(StringCodec)
+                    .with_handler(|req: String| async move { Ok::<String, std::convert::Infallible>(format!("re:{}", req)) })
+                    .open()
+                    .await
+                    .map_err(|e| err_text(&e))?;
+                tokio::spawn(async move {
+                    let _ = replier.listen().await;
+                });
+                tokio::time::sleep(Duration::from_millis(60)).await;
+                let mut rq = a
+                    .requestor(&topic)
+                    .with_request_encoder(StringCodec)
+                    .with_reply_decoder(StringCodec)
+                    .with_request_timeout(Duration::from_millis(700))
+                    .map_err(|e| err_text(&e))?
+                    .open()
+                    .await
+                    .map_err(|e| err_text(&e))?;
+                let first = rq.request("q0".to_string()).await.map_err(|e| err_text(&e))?;
+                if first != "re:q0" {
+                    return Err(format!("wrong:{}", first));
+                }
+                a.__verif_close_connection().await;
+                tokio::time::sleep(Duration::from_millis(30)).await;
+                let t0 = Instant::now();
+                let task = tokio::spawn(async move { rq.request("q1".to_string()).await });
+                let txt = match with_deadline(4000, task).await {
+                    None => "hung".to_string(),
+                    Some(Ok(Err(e))) => err_text(&e),
+                    Some(Ok(Ok(v))) => format!("answered:{}", v),
+                    Some(Err(_)) => "task_panicked".to_string(),
+                };
+                let _ = writeln!(out, "outage 0 op=request delivered={} ms={}", txt, t0.elapsed().as_millis());
+                if txt == "too_many_retries" { Ok(()) } else { Err(format!("expected too_many_retries, got {}", txt)) }
+            }
             "replier" | "replier_exhaust" => {
                 let mut replier = a
                     .replier(&topic)
@@ -293,7 +377,7 @@ pub async fn run_case(addr: SocketAddr, certs: &Certs, seed: u64, i: u64, kind: 
     let _ = writeln!(out, "end");
 }
 
-pub const KINDS: &[&str] = &["publisher", "subscriber", "requestor", "replier", "replier_exhaust"];
+pub const KINDS: &[&str] = &["publisher", "subscriber", "requestor", "replier", "replier_exhaust", "subscriber_exhaust", "publisher_exhaust", "requestor_exhaust"];
 
 pub fn main(args: &[String]) {
     let rt = tokio::runtime::Builder::new_multi_thread().worker_threads(3).enable_all().build().unwrap();
